@@ -67,7 +67,7 @@ type H3Handler struct {
 	Trl       []H3KV    `json:"trl,omitempty"`  // declared trailers (Trailer header); an empty V with Pad<0 = declared but never set
 	UTrl      []H3KV    `json:"utrl,omitempty"` // undeclared trailers (http.TrailerPrefix)
 	TrlJoin   bool      `json:"trl_join,omitempty"`
-	BadTrl    bool      `json:"bad_trl,omitempty"` // also sets a forbidden trailer name (must be ignored)
+	BadTrl    int       `json:"bad_trl,omitempty"` // a forbidden trailer name (must be ignored): 1 set with http.TrailerPrefix, 2 declared in the Trailer header
 	Gzip      bool      `json:"gzip,omitempty"`    // compress when the request accepts gzip
 	Read      int       `json:"read,omitempty"`    // 0 whole body first, 1 never, 2 first ReadN bytes, 3 after the response was written
 	ReadN     int       `json:"read_n,omitempty"`
@@ -454,7 +454,7 @@ func h3GenReq(r *KRng, tier string, maxBody, n, nb int, smallHdr bool) H3Req {
 	if r.P(0.15) {
 		h.UTrl = h3GenTrl(r, 1+r.N(2), "Und")
 	}
-	h.BadTrl = r.P(0.02)
+	h.BadTrl = r.Pick(0, 0, 0, 0, 0, 0, 0, 0, 0, 0, 0, 0, 0, 0, 0, 0, 0, 0, 0, 0, 0, 0, 1, 2, 2)
 	h.Gzip = r.P(0.3) && h.CL < 2
 	h.Read = r.Pick(0, 0, 0, 0, 1, 2, 3)
 	h.ReadN = r.Pick(0, 1, 1000, 10000)
@@ -513,7 +513,7 @@ func h3CapKeys(q *H3Req) {
 			break
 		}
 	}
-	if h.BadTrl {
+	if h.BadTrl != 0 {
 		fixed++
 	}
 	h.UTrl = h3TrimKeys(h.UTrl, 3)
@@ -778,6 +778,9 @@ func h3ApplyFinal(hd http.Header, h *H3Handler, p *h3Plan) {
 			seen[h3Canon(kv.K)] = true
 			names = append(names, kv.K)
 		}
+	}
+	if h.BadTrl == 2 {
+		names = append(names, "Authorization")
 	}
 	if h.TrlJoin && len(names) > 0 {
 		hd.Set("Trailer", strings.Join(names, ", "))
@@ -1168,9 +1171,12 @@ func (x *h3Run) serveHTTP(w http.ResponseWriter, r *http.Request) {
 		hd.Add(http.TrailerPrefix+kv.K, h3Val(kv))
 		x.res.Probe("h:trailer-undeclared")
 	}
-	if h.BadTrl {
-		x.res.Probe("h:forbidden-trailer-name")
+	switch h.BadTrl {
+	case 1:
+		x.res.Probe("h:forbidden-trailer-name-prefixed")
 		hd.Set(http.TrailerPrefix+"Content-Length", "1")
+	case 2:
+		x.res.Probe("h:forbidden-trailer-name-declared")
 	}
 	if h.WaitCtx {
 		x.res.Probe("h:wait-ctx")
